@@ -592,7 +592,7 @@ func c18GRPC(c *Ctx) {
 	}
 	for _, sp := range []spec{{"failsafegrpc.NewUnaryClientInterceptorWithExecutor", "client"}, {"failsafegrpc.NewUnaryServerInterceptorWithExecutor", "server"}} {
 		fn := c.P.Func(sp.fn)
-		if fn == nil || len(fn.AnonFuncs) == 0 {
+		if fn == nil {
 			c.Unresolved(sp.fn, "not found")
 			continue
 		}
@@ -613,16 +613,20 @@ func c18GRPC(c *Ctx) {
 		for _, prm := range icpt.Fn.Params {
 			args = append(args, ts.intern(&T{Op: "param", Aux: prm.Name(), Typ: prm.Type()}))
 		}
+		// the interceptor's parameters by their position in grpc's UnaryClientInterceptor / UnaryServerInterceptor
+		// signatures (whatever the code calls them)
+		posOf := map[string]map[string]int{
+			"client": {"ctx": 0, "method": 1, "req": 2, "reply": 3, "cc": 4, "invoker": 5, "opts": 6},
+			"server": {"ctx": 0, "req": 1, "info": 2, "handler": 3},
+		}[sp.kind]
 		byName := func(n string) *T {
-			for i, prm := range icpt.Fn.Params {
-				if prm.Name() == n {
-					return args[i]
-				}
+			if i, okp := posOf[n]; okp && i < len(args) {
+				return args[i]
 			}
 			return nil
 		}
 		ok := true
-		name, pos := c.fn(icpt.Fn), c.P.FuncPos(icpt.Fn)
+		name, pos := sp.fn+"$1", c.P.FuncPos(c.P.TargetOf(icpt.Fn)) // the interceptor, closure or bound method
 		for _, p := range ev.CallTerm(st, icpt, args) {
 			get := eventsWhere(p, func(e *Event) bool { return isCall(e, "GetWithExecution") && e.Idx >= p.Base })
 			if p.Exit != ExitReturn || len(get) != 1 || get[0].Args[0].Fn == nil {
@@ -643,7 +647,7 @@ func c18GRPC(c *Ctx) {
 			for _, q := range ev.CallTerm(p.State, cl, []*T{exec}) {
 				bad := func(msg string) {
 					ok = false
-					c.Fail(c.fn(cl.Fn), c.P.FuncPos(cl.Fn), msg, pathTrace(ev, q))
+					c.Fail(sp.fn+"$1$1", c.P.FuncPos(c.P.TargetOf(cl.Fn)), msg, pathTrace(ev, q))
 				}
 				evs := q.Events()[q.Base:]
 				var mc, call *Event
@@ -900,6 +904,10 @@ func c18GRPCRetry(c *Ctx) {
 					if mu, isMU := in.(*ssa.MapUpdate); isMU {
 						if k, isK := mu.Key.(*ssa.Const); isK && k.Value != nil {
 							if v, okv := constInt(k); okv {
+								// a set written as map[Code]bool: only entries stored as true are members
+								if bv, isB := mu.Value.(*ssa.Const); isB && bv.Value != nil && bv.Value.Kind().String() == "Bool" && bv.Value.ExactString() == "false" {
+									continue
+								}
 								codes[v] = true
 							}
 						}
@@ -953,6 +961,17 @@ func c18GRPCRetry(c *Ctx) {
 					}
 				}
 			})
+		}
+		if member == triU {
+			// the set as map[Code]bool read by indexing: membership is the looked-up value
+			for _, a := range q.State.Facts.Log {
+				a.Cond.Walk(func(t *T) {
+					if t.Op == "app" && t.Aux == "lookup" && len(t.Args) == 2 && t.Args[1].Op == "app" && hasPrefix(t.Args[1].Aux, "Code@") && isBoolType(t.Typ) {
+						usedMap = true
+						member = q.State.Facts.Truth(ts, t)
+					}
+				})
+			}
 		}
 		if member == triU {
 			// switch form: compare the status code with constants
